@@ -332,6 +332,7 @@ void ret(long r, long v) {
     }
   }
 }
+void point() { sched_point(K_FENCE, nullptr, 0); }
 long choose(long n) {
   if (!active || my_tid < 0 || n <= 1) return 0;
   // a recorded decision that does not count as a preemption
